@@ -148,7 +148,7 @@ func (s *vpTermScn) audit(where string) {
 	}
 	prev := StateCandidate
 	for _, tr := range s.m.transitions {
-		vpAssert("C18.chain", tr[0] == prev)
+		vpAssert("C18.chain", tr[0] == prev || tr[0] == StateCandidate) // CANDIDATE right after a (re)Start
 		prev = tr[1]
 	}
 	// C19: every promotion context is cancelled once its term is over; live while the term lasts
@@ -237,4 +237,73 @@ func vpH_C08_T_simultaneous() {
 	vpAssert("C08.term-ended", !s.e.IsLeader())
 	s.audit("after")
 	_ = s.e.Stop()
+}
+
+// vpH_C08_T_restart: Start -> leader -> stop -> Start -> leader -> stop on the same election object (both stop
+// variants in both positions), promotion callback blocking on its context.
+func vpH_C08_T_restart() {
+	H := time.Second
+	vpSetOpt("rand-fixed", 1)
+	s := vpTermInstance(H, false, true, nil)
+	s.audit("term1")
+	v1, v2 := vpChoose("first-stop", 2), vpChoose("second-stop", 2)
+	s.endTerm(vpCauseStop + 2*v1)
+	s.audit("stopped1")
+	s.st.write("env:cleanup", "delete", nil, true, 0)
+	_ = s.e.Start(vpRootCtx())
+	time.Sleep(H + H/2)
+	vpQuiesce()
+	vpAssert("harness.leader-after-restart", s.e.IsLeader())
+	vpCover("C08.restart")
+	s.audit("term2")
+	s.endTerm(vpCauseStop + 2*v2)
+	time.Sleep(6 * time.Second)
+	vpQuiesce()
+	s.audit("stopped2")
+}
+
+// vpH_C08_T_slow_callback: the promotion callback needs 6s to wind down after its context is cancelled
+// (longer than Stop's 5s wait): Stop must still deliver exactly one OnDemote.
+func vpH_C08_T_slow_callback() {
+	H := time.Second
+	s := &vpTermScn{H: H}
+	s.st = vpNewStore("g", 0)
+	s.kv = vpHandle(s.st, "a")
+	cfg := vpBaseConfig("a", H, 3*H)
+	cfg.ValidationInterval = time.Hour
+	s.m = &vpMetrics{}
+	s.m.onFlag = func(v float64) {
+		if s.wasL && v == 0 {
+			s.edges++
+		}
+		if !s.wasL && v == 1 {
+			s.ups++
+		}
+		s.wasL = v == 1
+	}
+	cfg.Metrics = s.m
+	s.e = vpMustNew(&vpProvider{s.kv}, cfg)
+	s.cb = &vpCallbacks{}
+	s.cb.install(s.e)
+	s.e.OnPromote(func(ctx context.Context, token string) {
+		s.cb.log = append(s.cb.log, "P:"+token)
+		s.cb.promotes++
+		s.cb.lastTok = token
+		s.cb.ctxs = append(s.cb.ctxs, ctx)
+		<-ctx.Done()
+		time.Sleep(6 * time.Second) // draining
+	})
+	_ = s.e.Start(vpRootCtx())
+	vpQuiesce()
+	vpAssert("harness.leader-after-start", s.e.IsLeader())
+	variant := vpChoose("variant", 2)
+	if variant == 0 {
+		_ = s.e.Stop()
+	} else {
+		_ = s.e.StopWithContext(context.Background(), StopOptions{Timeout: 10 * time.Second, WaitForDemote: true})
+	}
+	time.Sleep(8 * time.Second)
+	vpQuiesce()
+	vpCover("C08.slow-callback")
+	s.audit("after-stop")
 }
